@@ -11,19 +11,24 @@ from vt.build import close, require_consistent
 PROPERTY_ID = 'C17'
 
 RULE = ('Hypothesis draws spatial mode sizes (1..3 modes of size 2..4, a size-1 mode now and then), the snapshot count m (2..8), '
-        'the rank r <= min(N, m) of the snapshot matrix X = F G (exact low-rank factors), a random linear map A with Y = A X, '
-        'the TT representation of X and Y (harness TT-SVD, optionally followed by a random gauge, or pre-orthonormalised so that '
-        'ortho_l / ortho_r = False is admissible), threshold in {0, 1e-9}, a common scale factor 10^k of the snapshots (k in {-12,-3,0,6}; relative cuts are scale-invariant) and the variant (exact / standard). Oracle: matrix DMD '
+        'the rank r <= min(N, m) of the snapshot matrix X = F G (exact low-rank factors) or, for a cut that really cuts, prescribed '
+        'singular values (r in [0.1,1], 0.. further ones around 1e-5, threshold 1e-3 in the gap); Y = A X with a random linear map, or '
+        'Y = low-TT-rank tensor + 1e-5 * full-rank perturbation; the TT representation of X and Y (harness TT-SVD, optionally '
+        'followed by a random gauge; "preorth": exactly the sides whose ortho flag is switched off are orthonormal, the others '
+        'generic; "orthonormal": both sides), threshold in {0, 1e-9, 1e-3}, a common scale factor 10^k of the snapshots (k in '
+        '{-12,-3,0,6}; relative cuts are scale-invariant) and the variant (exact / standard). Oracle: matrix DMD '
         'with the same rank: eigenvalue multisets equal; exact modes satisfy (Y X^+) phi = lambda phi, standard modes satisfy '
-        'U U^H (Y X^+) phi = lambda phi with phi in range(U) (scale-free eigen-equations); inputs bit-identical; returned modes '
+        'U U^H (Y X^+) phi = lambda phi with phi in range(U) (scale-free eigen-equations); inputs unchanged; returned modes '
         'consistent. Non-trivial: rank-deficient X (r < min(N, m)), gauge, pre-orthonormalised input with flags off, >= 2 spatial '
-        'modes, or threshold > 0.')
+        'modes, threshold > 0, an active cut or a perturbed low-rank Y.')
 ASSUMPTIONS = [
     'oracle: numpy.linalg.svd / eig of the dense snapshot matrices',
     'real data; DMD eigenvalues are simple and non-zero (|lambda| > 1e-3 max|lambda|, pairwise gaps > 1e-3 max|lambda|), otherwise the case '
     'is discarded (eigenvectors of nearly defective matrices are ill-conditioned, and the exact modes divide by lambda)',
     'the TT representation carries the exact rank of X at the last bond (no numerically zero singular values are inverted)',
     'ortho_l / ortho_r = False only on inputs that are already orthonormal on that side',
+    'threshold 1e-3 only on representations whose orthonormalisation sweeps see singular values 1 or those of X itself (TT-SVD cores, '
+    'fully orthonormal cores): on a generic gauge the sweeps apply the relative cut to local, representation-dependent spectra',
 ]
 
 
@@ -36,30 +41,42 @@ def dmd_case(draw):
     N = int(np.prod(dims))
     m = draw(st.integers(2, 8))
     r = draw(st.integers(1, min(N, m)))
-    rep = draw(st.sampled_from(['ttsvd', 'gauge', 'preorth']))
-    flags = [draw(st.booleans()), draw(st.booleans())] if rep == 'preorth' else [True, True]
-    return {'dims': dims, 'm': m, 'r': r, 'rep': rep, 'flags': flags, 'threshold': draw(st.sampled_from([0, 0, 1e-9])),
+    rep = draw(st.sampled_from(['ttsvd', 'gauge', 'preorth', 'preorth', 'orthonormal']))
+    flags = [draw(st.booleans()), draw(st.booleans())] if rep in ('preorth', 'orthonormal') else [True, True]
+    case = {'dims': dims, 'm': m, 'r': r, 'rep': rep, 'flags': flags, 'threshold': draw(st.sampled_from([0, 0, 1e-9])),
             'variant': draw(st.sampled_from(['exact', 'standard'])), 'seed': draw(gen.SEED),
-            'scale_exp': draw(st.sampled_from([0, 0, -3, -12, 6]))}
+            'scale_exp': draw(st.sampled_from([0, 0, -3, -12, 6])), 'ykind': draw(st.sampled_from(['linear', 'linear', 'perturbed_lowrank']))}
+    if rep in ('ttsvd', 'orthonormal') and draw(st.booleans()):
+        # a cut that really cuts: prescribed singular values of X, `r` of them in [0.1, 1] and `small` of them around 1e-5,
+        # with the threshold 1e-3 in the gap (only on representations whose orthonormalisation sweeps see singular values
+        # 1 or the singular values of X itself, so that "the same relative cut" is well defined)
+        case['threshold'] = 1e-3
+        case['small'] = draw(st.integers(0, min(N, m) - r))
+    return case
 
 
-def to_tt(rng, mat, dims, m, rep):
+def to_tt(rng, mat, dims, m, rep, flags=(True, True)):
     cores = dense.tt_svd(mat.reshape(list(dims) + [m]), list(dims) + [m], [1] * (len(dims) + 1))
     if rep == 'gauge':
         cores = dense.gauge(cores, rng)
-    if rep == 'preorth':
+    if rep in ('preorth', 'orthonormal'):
         cores = dense.gauge(cores, rng)
         d = len(cores)
-        # right-orthonormalise the last core, left-orthonormalise cores 0..d-3 (what svd(index=d-1) would do itself)
-        r_, n_, _, rr = cores[-1].shape
-        q, rm = np.linalg.qr(cores[-1].reshape(r_, n_ * rr).T)
-        cores[-1] = q.T.reshape(q.shape[1], n_, 1, rr)
-        cores[-2] = np.tensordot(cores[-2], rm.T, axes=([3], [0]))
-        for i in range(d - 2):
-            a, b, _, c_ = cores[i].shape
-            q, rm = np.linalg.qr(cores[i].reshape(a * b, c_))
-            cores[i] = q.reshape(a, b, 1, q.shape[1])
-            cores[i + 1] = np.tensordot(rm, cores[i + 1], axes=([1], [0]))
+        both = rep == 'orthonormal'
+        # 'preorth': exactly what a switched-off flag promises and nothing more -- ortho_r=False: the last core is
+        # right-orthonormal; ortho_l=False: cores 0..d-3 are left-orthonormal (what svd(index=d-1) would do itself);
+        # a side whose flag is on stays generic.  'orthonormal': both sides, whatever the flags.
+        if both or not flags[1]:
+            r_, n_, _, rr = cores[-1].shape
+            q, rm = np.linalg.qr(cores[-1].reshape(r_, n_ * rr).T)
+            cores[-1] = q.T.reshape(q.shape[1], n_, 1, rr)
+            cores[-2] = np.tensordot(cores[-2], rm.T, axes=([3], [0]))
+        if both or not flags[0]:
+            for i in range(d - 2):
+                a, b, _, c_ = cores[i].shape
+                q, rm = np.linalg.qr(cores[i].reshape(a * b, c_))
+                cores[i] = q.reshape(a, b, 1, q.shape[1])
+                cores[i + 1] = np.tensordot(rm, cores[i + 1], axes=([1], [0]))
     return TT([np.array(c) for c in cores])
 
 
@@ -80,10 +97,25 @@ def body(c):
     dims, m, r = c['dims'], c['m'], c['r']
     N = int(np.prod(dims))
     scale = 10.0 ** c.get('scale_exp', 0)       # DMD is invariant under a common rescaling of the snapshots
-    X = scale * (rng.standard_normal((N, r)) @ rng.standard_normal((r, m)))
-    A = rng.standard_normal((N, N))
-    Y = A @ X
-    # matrix DMD
+    small = c.get('small', 0)
+    if c['threshold'] == 1e-3:
+        F = np.linalg.qr(rng.standard_normal((N, r + small)))[0]
+        Gm = np.linalg.qr(rng.standard_normal((m, r + small)))[0]
+        sv = np.concatenate([np.sort(rng.uniform(0.1, 1.0, r))[::-1], 1e-5 * np.sort(rng.uniform(0.3, 1.0, small))[::-1]])
+        sv[0] = 1.0
+        X = scale * ((F * sv) @ Gm.T)
+    else:
+        X = scale * (rng.standard_normal((N, r)) @ rng.standard_normal((r, m)))
+    if c.get('ykind', 'linear') == 'perturbed_lowrank':
+        # snapshots Y of low TT rank plus a perturbation of full rank at 1e-5: must not be truncated by the threshold,
+        # which is a cut for the pseudoinverse of X only
+        q = [1] + [1 + int(rng.integers(0, 2)) for _ in dims] + [1]
+        Y0 = dense.contract([rng.standard_normal((q[i], (list(dims) + [m])[i], 1, q[i + 1])) for i in range(len(dims) + 1)]).reshape(N, m)
+        Y = scale * (Y0 + 1e-5 * rng.standard_normal((N, m)))
+    else:
+        A = rng.standard_normal((N, N))
+        Y = A @ X
+    # matrix DMD (with the same relative cut)
     U, s, Vh = np.linalg.svd(X, full_matrices=False)
     U, s, Vh = U[:, :r], s[:r], Vh[:r]
     assume(s[-1] > 1e-5 * s[0])
@@ -94,8 +126,8 @@ def body(c):
     assume(lmax > 0 and np.min(np.abs(lam)) > 1e-3 * lmax)
     gaps = [abs(lam[i] - lam[j]) for i in range(r) for j in range(i + 1, r)]
     assume(not gaps or min(gaps) > 1e-3 * lmax)
-    x = to_tt(rng, X, dims, m, c['rep'])
-    y = to_tt(rng, Y, dims, m, 'ttsvd' if c['rep'] == 'preorth' else c['rep'])
+    x = to_tt(rng, X, dims, m, c['rep'], c['flags'])
+    y = to_tt(rng, Y, dims, m, 'ttsvd' if c['rep'] in ('preorth', 'orthonormal') else c['rep'])
     snaps = [(t, build.snapshot(t)) for t in (x, y)]
     f = tdmd.tdmd_exact if c['variant'] == 'exact' else tdmd.tdmd_standard
     ev, modes = f(x, y, threshold=c['threshold'], ortho_l=c['flags'][0], ortho_r=c['flags'][1])
@@ -131,6 +163,12 @@ def body(c):
         lab.add('threshold>0')
     if c['flags'] != [True, True]:
         lab.add('flags_off')
+    if c['flags'] == [False, True] and c['rep'] == 'preorth':
+        lab.add('only_left_preorthonormalised')
+    if c['threshold'] == 1e-3:
+        lab.add('cut_active' if small else 'threshold_1e-3')
+    if c.get('ykind') == 'perturbed_lowrank':
+        lab.add('y_perturbed_lowrank')
     if 1 in dims:
         lab.add('size1mode')
     if c.get('scale_exp', 0) != 0:
@@ -141,11 +179,11 @@ def body(c):
 
 
 def nt(labels):
-    return bool({'rank_deficient', 'rep_gauge', 'flags_off', 'multi_mode', 'threshold>0', 'rescaled_data'} & set(labels))
+    return bool({'rank_deficient', 'rep_gauge', 'flags_off', 'multi_mode', 'threshold>0', 'rescaled_data', 'cut_active', 'y_perturbed_lowrank'} & set(labels))
 
 
 SUBCHECKS = [
     Sub('tdmd', dmd_case(), body, nt, quick=300, thorough=3000, shards_quick=8,
         classes=['exact', 'standard', 'rank_deficient', 'rep_gauge', 'rep_preorth', 'flags_off', 'multi_mode', 'threshold>0', 'complex_eigenvalues',
-                 'size1mode', 'rescaled_data']),
+                 'size1mode', 'rescaled_data', 'only_left_preorthonormalised', 'cut_active', 'y_perturbed_lowrank']),
 ]
